@@ -1,3 +1,77 @@
-PROPS = {}
+"""per-property texts for MANIFEST.json / evidence; `qv manifest` regenerates MANIFEST.json from here + the group registry"""
+import json
+import os
+import sys
+
+ROOT = os.path.dirname(os.path.abspath(__file__))
+
+COMMON_TRUST = [
+    'cbmc 6.11.0 / goto-cc / goto-instrument and the SAT/SMT back ends (cadical, minisat, kissat, z3) are trusted',
+    'machine model: LP64 little-endian x86-64 as compiled by goto-cc; alignment, strict aliasing and uninitialised reads are not checked',
+    'allocator: CBMC malloc/calloc/free model (fresh exactly-sized objects, nondeterministic failure returning NULL); errno is an ordinary location',
+    'induction over the length of the operation history (every operation is proved from an ARBITRARY state satisfying the representation invariant) is a meta-argument, not mechanised',
+]
+MEM_TRUST = 'memcpy/memmove/realloc are replaced by assumed contracts in unbounded proofs (stubs/qv_mem.h): region validity and memcpy non-overlap are obligations, the copy effect is assumed for arbitrary ghost byte offsets'
+PTHREAD_TRUST = 'pthread_mutex_trylock/unlock are assumed contracts that maintain the ghost depth counter (stubs/qv_pthread.h); trylock is modelled as succeeding, so the forced-unlock branch of Q_MUTEX_ENTER after 5000 spins is not modelled'
+
+PROPS = {
+    'C10': dict(
+        technique='CBMC contract proofs: predicate contracts (pre/post harness per function) on the real qvector.c with woven loop invariants, ghost element/byte index, memcpy/realloc contract stubs; unbounded in length and capacity',
+        text='Every public qvector function is proved, for an arbitrary vector satisfying the representation invariant (any length/capacity up to 10^6, any contents, all growth policies, thread-safe or not), to realise exactly the ideal-array transition for an arbitrary ghost element: insertion/removal at the normalised index with the correct shift, refusal without effect, resize incl. 0 keeping the invariant (vector stays usable). Loops are closed by inductive loop contracts, so no unwinding bound is involved; element size is a per-instance constant (quick: 1,4; thorough: 1,2,3,4,8,64).',
+        design_ref='DESIGN.md section 3 C10',
+        note='Unbounded in num/max (cap 10^6 keeps int indexes meaningful); element size per instance from {1,2,3,4,8,64}; memcpy/memmove/realloc by assumed contract stubs; history quantifier by induction over operations from arbitrary invariant states (meta-argument); qvector_debug (fprintf) not covered.',
+        trusted_base=COMMON_TRUST + [MEM_TRUST, PTHREAD_TRUST],
+        unchecked=['qvector_debug is outside the claim (stdio formatting)', 'max*objsize overflow for capacities beyond 10^6 elements is outside the precondition'],
+    ),
+}
+
+NOT_APPLICABLE = {
+    'C20': 'needs a second, reference parser as specification and a proof that two tokenisers agree on every document; CBMC has no usable model of the fgets/vsnprintf/realloc-based code and a bounded stand-in (~10 symbolic bytes) cannot hold one nested section, so nothing the property is about would be decided (DESIGN.md section 4)',
+}
+
+NOT_YET = 'not claimed yet: no obligation group has been built for this property at this commit'
+
+
 def write_manifest():
-    pass
+    sys.path.insert(0, os.path.join(ROOT, 'lib'))
+    import qvlib
+    groups = qvlib.load_groups()
+    allp = [json.loads(l)['id'] for l in open(os.path.join(ROOT, 'properties.jsonl'))]
+    claimed = [p for p in allp if p in PROPS and any(p in g['props'] for g in groups)]
+    checks = []
+    for p in claimed:
+        m = PROPS[p]
+        checks.append({
+            'property_id': p,
+            'quick_cmd': 'bin/qv check %s --tier quick' % p,
+            'thorough_cmd': 'bin/qv check %s --tier thorough' % p,
+            'evidence_file': '/verif/evidence/%s.json' % p,
+            'replay_cmd_template': 'bin/qv replay {path}',
+            'engine': 'qv-cbmc-contracts',
+            'level_claimed': {'category': 'proof', 'text': m['text'], 'design_ref': m.get('design_ref', 'DESIGN.md')},
+            'level_note': m['note'],
+            'technique': m['technique'],
+        })
+    na = []
+    for p in allp:
+        if p in claimed:
+            continue
+        na.append({'property_id': p, 'reason': NOT_APPLICABLE.get(p, NOT_YET)})
+    man = {
+        'version': 1,
+        'setup_cmd': 'bin/setup',
+        'hooks': {
+            'guard': 'QLIBC_VERIF',
+            'enable': 'no hooks: contracts are attached from /verif (harness includes the real source; loop contracts are woven into a scratch copy on every run)',
+            'baseline_off_cmd': 'cmake -G Ninja -B /repo/_build -S /repo >/dev/null && cmake --build /repo/_build >/dev/null && ctest --test-dir /repo/_build -j8 --timeout 900',
+            'source_commits': [],
+            'add_only': True,
+        },
+        'engines': [{'name': 'qv-cbmc-contracts', 'path': 'bin/qv', 'serves_properties': claimed,
+                     'kind_free_text': 'contract-based deductive verification of the real C code with CBMC 6.11 (predicate contracts + woven loop contracts + DFCC function contracts), native ASan/UBSan replay of counterexamples'}],
+        'checks': checks,
+        'not_applicable': na,
+        'notes': 'All checks are `bin/qv check <id> --tier quick|thorough`; exit 0 held, 1 VIOLATION, 2 UNDECIDED (timeout/tool problem, never reported as violation). known_findings.txt lists recorded defects and fixed: entries.',
+    }
+    json.dump(man, open(os.path.join(ROOT, 'MANIFEST.json'), 'w'), indent=1)
+    print('MANIFEST.json: %d claimed, %d not claimed' % (len(claimed), len(na)))
